@@ -1169,6 +1169,12 @@ theorem map_ite_some_none {α β : Type} (f : α → β) (c : Prop) [Decidable c
     (Option.map f (if c then some x else none) = some y) ↔ c ∧ f x = y := by
   by_cases h : c <;> simp [h]
 
+theorem map_bcastR_eq_some {β : Type} (f : RShape → β) (a b : RShape) (y : β) :
+    (Option.map f (bcastR a b) = some y) ↔ ∃ r, bcastR a b = some r ∧ f r = y := Option.map_eq_some_iff
+
+theorem map_bcastAll_eq_some {β : Type} (f : RShape → β) (l : List RShape) (y : β) :
+    (Option.map f (bcastAll l) = some y) ↔ ∃ r, bcastAll l = some r ∧ f r = y := Option.map_eq_some_iff
+
 set_option hygiene false in
 /-- one statement backward: from `h : runS (op :: ops) A = some B` to the condition under which `op` succeeds (kept as a
 hypothesis), the next state substituted, and `h : runS ops A' = some B` -/
@@ -1185,10 +1191,11 @@ macro "bstep" : tactic =>
                decide_true, decide_false, Nat.add_zero, Nat.le_refl, Nat.sub_self, List.replicate_zero, List.append_nil,
                List.nil_append, and_true, true_and, Nat.lt_irrefl, false_or, or_false, true_or, or_true,
                Option.ite_none_right_eq_some, Option.some.injEq, Option.isSome_some, Option.isSome_none,
-               Option.map_eq_some_iff, map_ite_some_none, beq_iff_eq, *] at h1
+               map_bcastR_eq_some, map_bcastAll_eq_some, map_ite_some_none, beq_iff_eq, *] at h1
              first
                | subst h1
                | (obtain ⟨hc, h1⟩ := h1; subst h1)
-               | (obtain ⟨a, ha, h1⟩ := h1; subst h1)))
+               | (obtain ⟨a, ha, h1⟩ := h1; subst h1)
+             try subst_vars))
 
 end FShapes
